@@ -179,6 +179,158 @@ theorem createNodeFromEdge_exc {g g' : G} {e : Nat} (hc : Consistent g) (h : cre
       injection h with h
       rw [← h]; exact createNodeOnEdge_exc hc hr
 
+/-! ### the executable check is the invariant -/
+end G
+
+theorem ascending_iff (l : List Nat) : ascending l = true ↔ List.Pairwise (· < ·) l := by
+  induction l with
+  | nil => simp [ascending]
+  | cons a r ih =>
+    cases r with
+    | nil => simp [ascending]
+    | cons b r' =>
+      simp only [ascending, Bool.and_eq_true, decide_eq_true_eq, ih, List.pairwise_cons]
+      constructor
+      · rintro ⟨hab, hb, hr⟩
+        refine ⟨?_, hb, hr⟩
+        intro x hx
+        simp only [List.mem_cons] at hx
+        rcases hx with rfl | hx
+        · exact hab
+        · exact Nat.lt_trans hab (hb x hx)
+      · rintro ⟨ha, hb, hr⟩
+        exact ⟨ha b (by simp), hb, hr⟩
+
+namespace G
+
+theorem of_not_not {c : Bool} (h : ¬ (!c) = true) : c = true := by cases c <;> simp_all
+
+theorem check_iff (g : G) : g.check = none ↔ Consistent g := by
+  constructor
+  · intro h
+    unfold check at h
+    split at h; · cases h
+    rename_i h1
+    split at h; · cases h
+    rename_i h2
+    split at h; · cases h
+    rename_i h3
+    split at h; · cases h
+    rename_i h4
+    split at h; · cases h
+    rename_i h5
+    split at h; · cases h
+    rename_i h6
+    split at h; · cases h
+    rename_i h7
+    split at h; · cases h
+    rename_i h8
+    have s1 : Asc g.nodes := (ascending_iff _).mp (of_not_not h1)
+    have s2 : Asc g.edges := (ascending_iff _).mp (of_not_not h2)
+    have s3 : ∀ n r, find n g.nodes = some r → Asc r.out ∧ Asc r.inn := by
+      intro n r hr
+      have hm := find_some_mem hr
+      have := List.all_eq_true.mp (of_not_not h3) _ hm
+      simp only [Bool.and_eq_true, ascending_iff] at this
+      exact this
+    have hs : Sorted g := ⟨s1, s2, s3⟩
+    have h4' := List.all_eq_true.mp (of_not_not h4)
+    have h5' := List.all_eq_true.mp (of_not_not h5)
+    have h6' := List.all_eq_true.mp (of_not_not h6)
+    have h7' := List.all_eq_true.mp (of_not_not h7)
+    have h8' := List.all_eq_true.mp (of_not_not h8)
+    refine ⟨⟨?_, ?_, ?_, ?_, ?_⟩, ?_, ?_, hs⟩
+    · intro e a b hE
+      have := h4' _ (find_some_mem hE)
+      simp only [Bool.and_eq_true, beq_iff_eq, Bool.or_eq_true] at this
+      refine ⟨this.1.1, this.1.2, fun hd => ?_⟩
+      rcases this.2 with hh | hh
+      · rw [hd] at hh; cases hh
+      · exact hh
+    · intro a b e hO
+      unfold G.outE at hO
+      rcases find_cases a g.nodes with hf | ⟨r, hf⟩
+      · simp [hf] at hO
+      · simp only [hf, Option.bind_some] at hO
+        have := List.all_eq_true.mp (h5' _ (find_some_mem hf)) _ (find_some_mem hO)
+        simp only [Bool.or_eq_true, beq_iff_eq, Bool.and_eq_true, Bool.not_eq_true'] at this
+        exact this
+    · intro a b e hI
+      unfold G.inE at hI
+      rcases find_cases b g.nodes with hf | ⟨r, hf⟩
+      · simp [hf] at hI
+      · simp only [hf, Option.bind_some] at hI
+        have := List.all_eq_true.mp (h6' _ (find_some_mem hf)) _ (find_some_mem hI)
+        simp only [Bool.or_eq_true, beq_iff_eq, Bool.and_eq_true, Bool.not_eq_true'] at this
+        exact this
+    · intro a b e h; exact outE_some_hasNode h
+    · intro a b e h; exact inE_some_hasNode h
+    · intro n hn
+      obtain ⟨r, hr⟩ := (hasNode_iff g n).mp hn
+      have := h7' _ (find_some_mem hr)
+      simpa using this
+    · intro e he
+      simp only [G.hasEdge, has] at he
+      rcases find_cases e g.edges with hf | ⟨r, hf⟩
+      · simp [hf] at he
+      · have := h8' _ (find_some_mem hf)
+        simpa using this
+  · intro hc
+    obtain ⟨⟨v1, v2, v3, v4, v5⟩, hn, he, hs⟩ := hc
+    unfold check
+    have h1 : ascending (AL.keys g.nodes) = true := (ascending_iff _).mpr hs.nodes
+    have h2 : ascending (AL.keys g.edges) = true := (ascending_iff _).mpr hs.edges
+    have h3 : (g.nodes.all fun p => ascending (AL.keys p.2.out) && ascending (AL.keys p.2.inn)) = true := by
+      apply List.all_eq_true.mpr
+      intro p hp
+      have := hs.rows p.1 p.2 ((mem_iff_find hs.nodes p.1 p.2).mp hp)
+      simp only [Bool.and_eq_true, ascending_iff]
+      exact this
+    have h4 : (g.edges.all fun p => g.outE p.2.1 p.2.2 == some p.1 && g.inE p.2.2 p.2.1 == some p.1 &&
+        (g.directed || (g.outE p.2.2 p.2.1 == some p.1 && g.inE p.2.1 p.2.2 == some p.1))) = true := by
+      apply List.all_eq_true.mpr
+      intro p hp
+      obtain ⟨e, a, b⟩ := p
+      have := v1 e a b ((mem_iff_find hs.edges e (a, b)).mp hp)
+      simp only [Bool.and_eq_true, beq_iff_eq, Bool.or_eq_true]
+      refine ⟨⟨this.1, this.2.1⟩, ?_⟩
+      cases hd : g.directed
+      · exact Or.inr (this.2.2 hd)
+      · exact Or.inl rfl
+    have h5 : (g.nodes.all fun p => p.2.out.all fun q =>
+        AL.find q.2 g.edges == some (p.1, q.1) || (!g.directed && AL.find q.2 g.edges == some (q.1, p.1))) = true := by
+      apply List.all_eq_true.mpr
+      intro p hp
+      apply List.all_eq_true.mpr
+      intro q hq
+      have hf := (mem_iff_find hs.nodes p.1 p.2).mp hp
+      have hq' := (mem_iff_find (hs.rows p.1 p.2 hf).1 q.1 q.2).mp hq
+      have := v2 p.1 q.1 q.2 (by simp [G.outE, hf, hq'])
+      simp only [Bool.or_eq_true, beq_iff_eq, Bool.and_eq_true, Bool.not_eq_true']
+      exact this
+    have h6 : (g.nodes.all fun p => p.2.inn.all fun q =>
+        AL.find q.2 g.edges == some (q.1, p.1) || (!g.directed && AL.find q.2 g.edges == some (p.1, q.1))) = true := by
+      apply List.all_eq_true.mpr
+      intro p hp
+      apply List.all_eq_true.mpr
+      intro q hq
+      have hf := (mem_iff_find hs.nodes p.1 p.2).mp hp
+      have hq' := (mem_iff_find (hs.rows p.1 p.2 hf).2 q.1 q.2).mp hq
+      have := v3 q.1 p.1 q.2 (by simp [G.inE, hf, hq'])
+      simp only [Bool.or_eq_true, beq_iff_eq, Bool.and_eq_true, Bool.not_eq_true']
+      exact this
+    have h7 : (g.nodes.all fun p => decide (p.1 < g.nextNode)) = true := by
+      apply List.all_eq_true.mpr
+      intro p hp
+      have hf := (mem_iff_find hs.nodes p.1 p.2).mp hp
+      simpa using hn p.1 ((hasNode_iff g p.1).mpr ⟨_, hf⟩)
+    have h8 : (g.edges.all fun p => decide (p.1 < g.nextEdge)) = true := by
+      apply List.all_eq_true.mpr
+      intro p hp
+      have hf := (mem_iff_find hs.edges p.1 p.2).mp hp
+      simpa using he p.1 (by simp [G.hasEdge, has, hf])
+    simp [h1, h2, h3, h4, h5, h6, h7, h8]
+
 end G
 end Graph
 end Bpp
